@@ -14,14 +14,14 @@ Zero has TWO in-range words, 0 and p (`f62_zero_words`).
   §4  normalize; the Montgomery reduction identity.
 
   §5  `inv` (binary extended Euclid; the translator bounds each of its five `while` loops by 256
-      iterations, `Wf.whileFuel`): PARTIAL.  Proved: both zeros ↦ 0; the result is in [0, 2p) for every
-      input; the final Montgomery correction `mul a R3` turns an inverse of the stored word into a word
-      whose value is the inverse of the value.  NOT proved: that the loops leave such an inverse in `a`
-      (the loop invariant a·x ≡ v, d·x ≡ −u (mod p), gcd(u, v) = 1, and that 256 iterations suffice),
-      i.e. there is NO theorem `val (inv x) · val x ≡ 1`; that part is covered by the correspondence
-      stream only (the driver runs the generated `inv`; the oracle is Fermat exponentiation).
+      iterations, `Wf.whileFuel`, and emits their conditions / bodies as `inv_while<k>_cond/_body`):
+      FULL correctness — for every in-range word of non-zero value the result is in range and its
+      value is the inverse modulo p (loop-invariant proof in Lemmas/F62Inv.lean: a·X ≡ v, d·X ≡ −u,
+      gcd(u, v) = 1, u·v·2^k ≤ 2p², a, d ≤ (k+2)p; variants log₂(u·v), log₂ u, a/p, all < 256, so the
+      iteration bound of the translation is never reached); both zeros ↦ 0; result in range for
+      EVERY input word.  Uses the primality of p (Lucas certificate of C11, Lemmas/Primes.lean).
 -/
-import Wf.Lemmas.F62
+import Wf.Lemmas.F62Inv
 namespace Wf.Props.C10F62
 open Wf Wf.F62 Wf.Gen.F62
 
@@ -98,7 +98,7 @@ theorem f62_prod_bound (a b : BitVec 64) (ha : Rep a) (hb : Rep b) :
 theorem f62_constants : (1 + U.toNat * F62.p) % 2 ^ 64 = 0 ∧ R2.toNat = 2 ^ 128 % F62.p := by
   rw [U_toNat]; exact ⟨U_spec, R2_toNat⟩
 
-/-! ## §5 inv (partial: see the header) -/
+/-! ## §5 inv -/
 
 /-- `inv` maps both words of zero to the word 0 -/
 theorem f62_inv_zeros : inv 0#64 = 0#64 ∧ inv M = 0#64 := inv_zeros
@@ -106,10 +106,14 @@ theorem f62_inv_zeros : inv 0#64 = 0#64 ∧ inv M = 0#64 := inv_zeros
 /-- the result of `inv` is a word in [0, 2p), for EVERY 64-bit input -/
 theorem f62_inv_rep (x : BitVec 64) : Rep (inv x) := inv_rep x
 
-/-- only the last step of `inv`, NOT its correctness: if `a` is an inverse of the stored word x
-    modulo p, then `mul a R3` is in range and its value is the inverse of the value of x -/
-theorem f62_inv_final_step_partial (a x : BitVec 64) (h : a.toNat * x.toNat % F62.p = 1) :
-    Rep (mul a R3) ∧ val (mul a R3) * val x % F62.p = 1 := inv_final_step a x h
+/-- `inv` computes the multiplicative inverse: for every in-range word of non-zero value,
+    val (inv x) · val x ≡ 1 (mod p) -/
+theorem f62_inv_exact (x : BitVec 64) (hx : Rep x) (hne : val x ≠ 0) :
+    Rep (inv x) ∧ val (inv x) * val x % F62.p = 1 := inv_spec x hx hne
+
+/-- hence `Div` (`mul a (inv b)`) is division: (a / b) · b = a on values, for b ≠ 0 -/
+theorem f62_div_exact (a b : BitVec 64) (ha : Rep a) (hb : Rep b) (hne : val b ≠ 0) :
+    Rep (mul a (inv b)) ∧ val (mul a (inv b)) * val b % F62.p = val a := div_spec a b ha hb hne
 
 /-! ## non-vacuity -/
 
